@@ -187,47 +187,45 @@ Qed.
 
 
 (* ---- adding the variable a load form binds (table, inst) hides no flavor ---- *)
-Lemma insts_in_ext : forall v e e', loadable_in v = true ->
+Lemma insts_in_ext : forall v e e',
   (forall f, (f =? "inst") = false -> (f =? "table") = false -> lookup e' f = lookup e f) ->
   insts_in e v = true -> insts_in e' v = true.
 Proof.
-  induction v using obj_ind2; intros e e' Hl Hlk Hi; try reflexivity.
+  induction v using obj_ind2; intros e e' Hlk Hi; try reflexivity.
   - (* L *)
-    cbn [loadable_in] in Hl. apply andb_true_iff in Hl. destruct Hl as [_ Hl]. cbn [insts_in] in Hi |- *.
+    cbn [insts_in] in Hi |- *.
     induction xs as [|a r IHr]; [reflexivity|]. inversion H as [|? ? Pa Pr]; subst.
-    cbn [forallb] in Hl, Hi |- *. apply andb_true_iff in Hl. destruct Hl as [La Lr]. apply andb_true_iff in Hi. destruct Hi as [Ia Ir].
-    rewrite (Pa e e' La Hlk Ia). cbn [andb]. apply IHr; assumption.
+    cbn [forallb] in Hi |- *. apply andb_true_iff in Hi. destruct Hi as [Ia Ir].
+    rewrite (Pa e e' Hlk Ia). cbn [andb]. apply IHr; assumption.
   - (* Dot *)
-    cbn [loadable_in] in Hl. apply andb_true_iff in Hl. destruct Hl as [Hl _]. apply andb_true_iff in Hl. destruct Hl as [Hl Htl].
-    apply andb_true_iff in Hl. destruct Hl as [_ Hl].
     cbn [insts_in] in Hi |- *. apply andb_true_iff in Hi. destruct Hi as [Hi Hit].
-    rewrite (IHv e e' Htl Hlk Hit), andb_true_r.
+    rewrite (IHv e e' Hlk Hit), andb_true_r.
     induction xs as [|a r IHr]; [reflexivity|]. inversion H as [|? ? Pa Pr]; subst.
-    cbn [forallb] in Hl, Hi |- *. apply andb_true_iff in Hl. destruct Hl as [La Lr]. apply andb_true_iff in Hi. destruct Hi as [Ia Ir].
-    rewrite (Pa e e' La Hlk Ia). cbn [andb]. apply IHr; assumption.
+    cbn [forallb] in Hi |- *. apply andb_true_iff in Hi. destruct Hi as [Ia Ir].
+    rewrite (Pa e e' Hlk Ia). cbn [andb]. apply IHr; assumption.
   - (* Hash *)
-    cbn [loadable_in] in Hl. apply andb_true_iff in Hl. destruct Hl as [Hl _]. cbn [insts_in] in Hi |- *.
+    cbn [insts_in] in Hi |- *.
     induction kvs as [|[k w] r IHr]; [reflexivity|]. inversion H as [|? ? [_ Pw] Pr]; subst. cbn [snd] in Pw.
-    cbn [forallb fst snd] in Hl, Hi |- *. apply andb_true_iff in Hl. destruct Hl as [La Lr]. apply andb_true_iff in La. destruct La as [_ La].
-    apply andb_true_iff in Hi. destruct Hi as [Ia Ir].
-    rewrite (Pw e e' La Hlk Ia). cbn [andb]. apply IHr; assumption.
+    cbn [forallb fst snd] in Hi |- *. apply andb_true_iff in Hi. destruct Hi as [Ia Ir].
+    rewrite (Pw e e' Hlk Ia). cbn [andb]. apply IHr; assumption.
   - (* Inst *)
-    cbn [loadable_in] in Hl. apply andb_true_iff in Hl. destruct Hl as [Hl Hs]. apply andb_true_iff in Hl. destruct Hl as [Hf1 Hf2].
-    apply negb_true_iff in Hf1. apply negb_true_iff in Hf2.
-    cbn [insts_in] in Hi |- *. apply andb_true_iff in Hi. destruct Hi as [Hi Hg]. rewrite (Hlk f Hf1 Hf2). rewrite Hi. cbn [andb].
-    clear Hi. induction slots as [|[k w] r IHr]; [reflexivity|]. inversion H as [|? ? Pw Pr]; subst. cbn [snd] in Pw.
-    apply andb_true_iff in Hs. destruct Hs as [La Lr]. apply andb_true_iff in Hg. destruct Hg as [Ia Ir].
-    rewrite (Pw e e' La Hlk Ia). cbn [andb]. apply IHr; assumption.
+    cbn [insts_in] in Hi |- *. apply andb_true_iff in Hi. destruct Hi as [Hi Hg]. apply andb_true_iff in Hi. destruct Hi as [Hi Hn].
+    apply andb_true_iff in Hi. destruct Hi as [Hf Hl]. apply andb_true_iff in Hf. destruct Hf as [Hf1 Hf2].
+    rewrite Hf1, Hf2. cbn [andb]. apply negb_true_iff in Hf1. apply negb_true_iff in Hf2.
+    rewrite (Hlk f Hf1 Hf2). rewrite Hl, Hn. cbn [andb].
+    clear Hl Hn. induction slots as [|[k w] r IHr]; [reflexivity|]. inversion H as [|? ? Pw Pr]; subst. cbn [snd] in Pw.
+    apply andb_true_iff in Hg. destruct Hg as [Ia Ir].
+    rewrite (Pw e e' Hlk Ia). cbn [andb]. apply IHr; assumption.
 Qed.
 
-Lemma insts_in_table : forall v e x, loadable_in v = true -> insts_in e v = true -> insts_in (("table", x) :: e) v = true.
+Lemma insts_in_table : forall v e x, insts_in e v = true -> insts_in (("table", x) :: e) v = true.
 Proof.
-  intros v e x Hl Hi. apply (insts_in_ext v e); [exact Hl| |exact Hi].
+  intros v e x Hi. apply (insts_in_ext v e); [|exact Hi].
   intros f _ Hf. cbn [lookup]. rewrite String.eqb_sym, Hf. reflexivity.
 Qed.
-Lemma insts_in_inst : forall v e x, loadable_in v = true -> insts_in e v = true -> insts_in (("inst", x) :: e) v = true.
+Lemma insts_in_inst : forall v e x, insts_in e v = true -> insts_in (("inst", x) :: e) v = true.
 Proof.
-  intros v e x Hl Hi. apply (insts_in_ext v e); [exact Hl| |exact Hi].
+  intros v e x Hi. apply (insts_in_ext v e); [|exact Hi].
   intros f Hf _. cbn [lookup]. rewrite String.eqb_sym, Hf. reflexivity.
 Qed.
 
@@ -644,7 +642,7 @@ Proof.
         + intros e He Hi. cbn [forallb snd] in Hi. apply andb_true_iff in Hi. destruct Hi as [Hiw Hir].
           constructor; [|apply Hefs; assumption].
           exists kf, wf. split; [reflexivity|]. cbn [fst snd]. split; intro tb; [apply Evk|].
-          apply Evw; [apply env_ok_table; exact He|apply insts_in_table; assumption]. }
+          apply Evw; [apply env_ok_table; exact He|apply insts_in_table; exact Hiw]. }
     destruct Hefs as (efs & Eefs & Hefs).
     exists (table_let efs). split.
     + unfold elem_form. rewrite load_form_Hash, Eefs. reflexivity.
@@ -654,7 +652,7 @@ Proof.
     cbn [loadable_in] in Hl. apply andb_true_iff in Hl. destruct Hl as [Hl _].
     eexists. split; [reflexivity|]. intros e He _. apply eval_lambda_form. exact Hl.
   - (* Inst: the value of every instance variable as an element *)
-    cbn [loadable_in] in Hl. apply andb_true_iff in Hl. destruct Hl as [_ Hs].
+    cbn [loadable_in] in Hl. rename Hl into Hs.
     assert (Hfws : exists fws, map_res slot_form slots = Ok (map (fun p => setf_slot (fst p) (snd p)) (combine (map fst slots) fws)) /\
               forall e, env_ok e ->
                 (fix go (l : list (string * obj)) : bool := match l with [] => true | (_, w) :: r => insts_in e w && go r end) slots = true ->
@@ -668,11 +666,12 @@ Proof.
         + cbn [map_res]. unfold slot_form at 1. cbn [fst snd]. rewrite Efw. cbn [bind]. rewrite Efws. reflexivity.
         + intros e He Hi. apply andb_true_iff in Hi. destruct Hi as [Hiw Hir].
           constructor; [|apply Hfws; assumption]. intro cur. cbn [snd].
-          apply Evw; [apply env_ok_inst; exact He|apply insts_in_inst; assumption]. }
+          apply Evw; [apply env_ok_inst; exact He|apply insts_in_inst; exact Hiw]. }
     destruct Hfws as (fws & Efws & Hfws).
     eexists. split.
     + unfold elem_form. rewrite load_form_Inst, Efws. reflexivity.
-    + intros e He Hi. cbn [insts_in] in Hi. apply andb_true_iff in Hi. destruct Hi as [Hi Hg]. apply andb_true_iff in Hi. destruct Hi as [Hlk Hn].
+    + intros e He Hi. cbn [insts_in] in Hi. apply andb_true_iff in Hi. destruct Hi as [Hi Hg]. apply andb_true_iff in Hi. destruct Hi as [Hi Hn].
+      apply andb_true_iff in Hi. destruct Hi as [_ Hlk].
       destruct (lookup e f) as [fv|] eqn:El; [|discriminate]. destruct fv; try discriminate.
       apply strings_eqb_eq in Hlk. apply keys_nodupb_nodup in Hn.
       rewrite (eval_inst_let e f _ _ _ _ _ _ _ El).
